@@ -22,6 +22,8 @@ mod error;
 mod imp;
 mod path;
 mod tests;
+#[cfg(feature = "verif-hooks")]
+pub mod verif;
 
 pub use error::Error;
 pub use imp::*;
